@@ -120,7 +120,7 @@ def c03_file(draw):
     for x in subj:
         stmts.append({"k": "cdecay", "x": x})
     stmts = list(draw(st.permutations(stmts)))
-    f = {"stmts": stmts, "include_cc": draw(st.sampled_from((True, True, True, True, False)))}
+    f = {"stmts": stmts, "include_cc": draw(st.sampled_from((True, True, True, True, False))), "first_other": draw(st.sampled_from((False, False, False, True)))}
     f.update(G.file_flags(draw))
     return f
 
@@ -131,7 +131,13 @@ def check_case(f, rec):
     exp = R.all_tables(f, include_cc=inc)
     with warnings.catch_warnings():
         warnings.simplefilter("ignore")
-        p = make_parser(text, ID, include_cc=inc)
+        if f.get("first_other"):
+            # the same object is first parsed with the opposite switch, then with the intended one (default spelled out or not)
+            p = make_parser(text, ID, include_cc=not inc)
+            with impl(ID, "parse-again"):
+                p.parse() if inc else p.parse(include_ccdecays=False)
+        else:
+            p = make_parser(text, ID, include_cc=inc)
         compare_tables(ID, p, exp)
     ccd = R.cc_dict(f)
     conj_tables = [(m, ls) for m, o, ls in exp if o == "conj"]
@@ -142,7 +148,7 @@ def check_case(f, rec):
         for ln_c, ln_s in zip(ls, base[src_of[m]]):
             if len(ln_c["fs"]) >= 2 and ln_c["fs"] != ln_s["fs"]:
                 nt = True
-    classes = ["switch-on" if inc else "switch-off"]
+    classes = ["switch-on" if inc else "switch-off"] + (["parsed-first-with-the-other-switch"] if f.get("first_other") else [])
     subjects = R.cdecay_subjects(f)
     have_dec = set(R.decay_tables(f))
     if any(s in have_dec for s in subjects):
